@@ -345,6 +345,7 @@ func init() {
 				{Pkg: tb, Func: "VH_C14_diff", Args: []int64{2, 1}, Unwind: 64},
 				{Pkg: tb, Func: "VH_C14_diff", Args: []int64{1, 2}, Unwind: 64},
 				{Pkg: tb, Func: "VH_C14_reconcile", Unwind: 64, EngineOnly: true},
+				{Pkg: tb, Func: "VH_C14_snapshot", Unwind: 64},
 				{Pkg: tb, Func: "VH_C14_vacuity", Expect: "violated"},
 			}
 			if tier == "thorough" {
@@ -352,9 +353,9 @@ func init() {
 			}
 			return r
 		},
-		Covers: map[string][]string{"VH_C14_step": {"end", "create-ok", "create-exists", "delete-ok"}, "VH_C14_recreate": {"end"}, "VH_C14_race": {"end", "one-wins"}, "VH_C14_diff": {"end", "start", "stop"}, "VH_C14_reconcile": {"end", "start", "stop"}},
+		Covers: map[string][]string{"VH_C14_step": {"end", "create-ok", "create-exists", "delete-ok"}, "VH_C14_recreate": {"end"}, "VH_C14_race": {"end", "one-wins"}, "VH_C14_diff": {"end", "start", "stop"}, "VH_C14_reconcile": {"end", "start", "stop"}, "VH_C14_snapshot": {"end", "stale-name"}},
 		Bounds: map[string]string{
-			"quick":    "catalogue over 3 names with arbitrary membership, ids drawn from (10000, seq] for seq in {absent, 10003, 10007}, arbitrary record versions; one create/delete/list step; delete+recreate; two racing creates (of one name, and of two different names) with every interleaving of their store accesses; diffTables over 2 records x 1 running shard and 1 record x 2 running shards (ids and recover-ids 64-bit symbolic) under all map orders; the whole Manager.reconcile (engine only) over a catalogue of 0..2 tables with table id and optional recovery id (also recovery id alone) from 10001..10004 and every subset of 10001..10004 running: exactly the missing catalogued ids are started under their own id, exactly the uncatalogued running ones stopped",
+			"quick":    "catalogue over 3 names with arbitrary membership, ids drawn from (10000, seq] for seq in {absent, 10003, 10007}, arbitrary record versions; one create/delete/list step; delete+recreate; two racing creates (of one name, and of two different names) with every interleaving of their store accesses; diffTables over 2 records x 1 running shard and 1 record x 2 running shards (ids and recover-ids 64-bit symbolic) under all map orders; the whole Manager.reconcile (engine only) over a catalogue of 0..2 tables with table id and optional recovery id (also recovery id alone) from 10001..10004 and every subset of 10001..10004 running: exactly the missing catalogued ids are started under their own id, exactly the uncatalogued running ones stopped; a store replica holding an arbitrary stale catalogue over 2 names caught up by a snapshot of an arbitrary source catalogue over the same names: listing and lookups on it equal the source's",
 			"thorough": "diffTables 2 x 2",
 		},
 		Outside:     "emptiness of a (re)created table's data (the state-machine directory is derived from name and id; exercising FSM.Open needs the file-system model: see C04) and isolation between shards; names containing '/'; actual shard start/stop inside dragonboat; Restore's id switch",
